@@ -199,6 +199,22 @@ fn do_resolve<Fd: AsFd, P: AsRef<Path>>(
                 source: err,
             })?,
     );
+    // Like every other path lookup (and like openat2(2) without AT_EMPTY_PATH),
+    // an empty path does not name the root but fails with ENOENT. This matches
+    // what the openat2 resolver returns.
+    if path.as_ref().as_os_str().is_empty() {
+        return Ok(PartialLookup::Partial {
+            handle: root,
+            remaining: PathBuf::new(),
+            last_error: ErrorImpl::OsError {
+                operation: "emulated path resolution".into(),
+                source: IOError::from_raw_os_error(libc::ENOENT),
+            }
+            .wrap("empty path")
+            .into(),
+        });
+    }
+
     let mut current = Rc::clone(&root);
 
     // Get initial set of components from the passed path. We remove components
